@@ -299,6 +299,37 @@ def main(tier, seed):
                        env=common.clean_env(hashseed=str(sv)))
         run.count('hash_seeds_swept')
     run.notes.append('t_seed=%.1f' % (time.time() - run.t0))
+    # ---- (a2) the same sweep with the minifier running in the other interpreters (dict and set order depend on the hash seed below 3.7)
+    cross_items = [it for it in items if it['as_text'] or _is_utf8(base64.b64decode(it['src_b64']))]
+    cross_items = cross_items[::(3 if tier == 'quick' else 1)]
+    outs = {}
+    for version, py in common.interpreters():
+        if version == '3.12-venv' or run.timed_out():
+            continue
+        if tier == 'quick' and version not in ('2.7.18', '3.6.15', '3.7.16', '3.10.13', '3.13.0'):
+            continue
+        for sv in ([0, 1, 2, 4242] if tier == 'quick' else [0, 1, 2, 3, 5, 42, 4242, 31337]):
+            ops = [{'op': 'minify', 'src': base64.b64decode(it['src_b64']).decode('utf-8'), 'opts': it['opts'], 'case_timeout': 40, 'name': it['name']} for it in cross_items]
+
+            def on_x(o, r, version=version, sv=sv):
+                if r.get('status') != 'ok':
+                    return
+                key = (version, o['name'])
+                h = _h(r['out'])
+                run.count('cross_interpreter_seed_runs')
+                if key not in outs:
+                    outs[key] = (sv, h)
+                    run.nontrivial.add('xseed|%s|%s' % (version, o['name']))
+                    run.cell('cross_interpreter_seed_sweep', version)
+                elif outs[key][1] != h:
+                    run.add({'layer': 'cross-seed', 'interpreter': version, 'item': o['name'], 'opts': o['opts'], 'src': o['src'], 'hashseeds': [outs[key][0], sv]},
+                            {'status': 'violation', 'violations': [{'mech': None, 'detail': '%s: %s: PYTHONHASHSEED=%s and PYTHONHASHSEED=%s give different outputs' % (
+                                version, o['name'], outs[key][0], sv), 'witness': {'out': r['out'][:600]}}]})
+            env = common.clean_env(hashseed=str(sv))
+            env['PYTHONPATH'] = common.REPO_SRC
+            pool.run_cases(ops, None, cmd=[py, '-W', 'ignore', os.path.join(common.VERIF, 'vf', 'compat_worker.py')], env=env, timeout=60, batch=10, on_result=on_x,
+                           deadline=run.deadline, nworkers=6)
+    run.notes.append('t_xseed=%.1f' % (time.time() - run.t0))
     # ---- (b)+(d) histories
     nh = 24 if tier == 'quick' else 160
     hcases = []
@@ -327,13 +358,13 @@ def main(tier, seed):
     run.notes.append('t_threads=%.1f' % (time.time() - run.t0))
     return run.finish(
         rule='(source, options) items from seeds, the pinned corpus and random modules, with preserve lists and annotation option '
-             'objects; reference = fresh process, PYTHONHASHSEED=0; (a) other hash seeds, (b) random call histories with caller-owned '
+             'objects; reference = fresh process, PYTHONHASHSEED=0; (a) other hash seeds - also with the minifier running in 2.7 / 3.6 / 3.7 / 3.10 / 3.13 (thorough: all) under several PYTHONHASHSEED values, (b) random call histories with caller-owned '
              'objects re-used, (c) 4-16 threads with LINE-event yield injection inside python_minifier, (d) argument deep-copy '
              'comparison on every call; non-trivial/distinct = distinct (item, seed) + distinct history prefixes + distinct '
              'observed (function -> function) thread-switch signatures inside the minifier',
         assumptions=['sha256 of the returned text stands for the text', 'LINE-event callbacks may yield the GIL (time.sleep(0))'],
         min_nontrivial=100,
-        required_counters=['reference_runs_fresh_process', 'history_calls', 'thread_calls', 'seed_runs',
+        required_counters=['reference_runs_fresh_process', 'history_calls', 'thread_calls', 'seed_runs', 'cross_interpreter_seed_runs',
                            'observed_context_switches_inside_minifier'])
 
 
